@@ -8,6 +8,7 @@ package c03
 import (
 	"fmt"
 	"os"
+	"sort"
 	"strings"
 	"testing"
 
@@ -936,4 +937,161 @@ func TestKF_sparse_mdotm_zero_columns(t *testing.T) {
 		NullSparseFloat64Matrix(1, 0).MdotM(NewDenseFloat64Matrix([]float64{0.5}, 1, 1), NullSparseFloat64Matrix(1, 0))
 	})
 	obs.KFStatus("C03/sparse-mdotm-zero-columns", p != "", p)
+}
+
+// ---------------------------------------------------------------------------------------------
+// aspect: vector_container_ops — reordering, mapping, reducing, appending and slicing give the same
+// elements for dense and sparse storage (the model is a plain slice of scalars)
+
+func TestC03_vector_container_ops(t *testing.T) {
+	ops := []string{"Sort", "ReverseOrder", "Reduce", "Map", "MapSet", "AppendScalar", "AppendVector", "Slice", "Swap", "Permute"}
+	rapid.Check(t, func(t *rapid.T) {
+		op := ops[rapid.IntRange(0, len(ops)-1).Draw(t, "op")]
+		st := gen.DrawElemType(t, "elem")
+		dm := gen.DrawDerivMode(t, "dm", st)
+		n := gen.Dim(t, "n", 7)
+		as := rapid.Bool().Draw(t, "aSparse")
+		a := gen.DrawVec(t, "a", st, as, n, dm, false)
+		c := obs.Begin("vector_container_ops", "%s a=%s", op, a)
+		classify(c, op, st, as, []bool{as}, "new", as, a.HasZero())
+		if a.HasStoredZero() {
+			c.Class("stored zero in a sparse operand")
+		}
+		am := a.Model()
+		av := a.Build()
+		var want []Scalar
+		var got ConstVector = av
+		valuesOnly := false
+		var perr string
+		switch op {
+		case "Sort":
+			rev := rapid.Bool().Draw(t, "reverse")
+			want = append([]Scalar{}, am...)
+			sort.SliceStable(want, func(i, j int) bool {
+				if rev {
+					return want[i].GetFloat64() > want[j].GetFloat64()
+				}
+				return want[i].GetFloat64() < want[j].GetFloat64()
+			})
+			// equal values may carry different derivatives: their order is not specified
+			valuesOnly = true
+			perr = call(func() { av.Sort(rev) })
+		case "ReverseOrder":
+			want = make([]Scalar, n)
+			for i := range am {
+				want[n-1-i] = am[i]
+			}
+			perr = call(func() { av.ReverseOrder() })
+		case "Reduce":
+			acc := st.NewMut(0)
+			for i := range am {
+				acc.Add(acc, am[i])
+			}
+			want = []Scalar{acc}
+			var r Scalar
+			perr = call(func() {
+				r = av.Reduce(func(r Scalar, x ConstScalar) Scalar { r.Add(r, x); return r }, st.NewMut(0))
+			})
+			if perr == "" {
+				v := NullDenseVector(st.T, 1)
+				v.At(0).Set(r)
+				got = v
+			}
+		case "Map", "MapSet":
+			// f(0) = 0: absent entries of a sparse vector stay what they are
+			want = make([]Scalar, n)
+			for i := range am {
+				want[i] = st.NewMut(0)
+				want[i].Mul(am[i], ConstFloat64(2))
+			}
+			if op == "Map" {
+				perr = call(func() { av.Map(func(x Scalar) { x.Mul(x, ConstFloat64(2)) }) })
+			} else {
+				perr = call(func() {
+					av.MapSet(func(x ConstScalar) Scalar { r := st.NewMut(0); r.Mul(x, ConstFloat64(2)); return r })
+				})
+			}
+		case "AppendScalar":
+			k := rapid.IntRange(0, 3).Draw(t, "k")
+			ext := gen.DrawVec(t, "x", st, false, k, dm, false)
+			want = append(append([]Scalar{}, am...), ext.Model()...)
+			var r Vector
+			perr = call(func() { r = av.AppendScalar(ext.Model()...) })
+			got = r
+		case "AppendVector":
+			k := gen.Dim(t, "k", 4)
+			bs := rapid.Bool().Draw(t, "bSparse")
+			b := gen.DrawVec(t, "b", st, bs, k, dm, false)
+			c.Classf("appended=%s", sp(bs))
+			want = append(append([]Scalar{}, am...), b.Model()...)
+			var r Vector
+			bv := b.Build()
+			perr = call(func() { r = av.AppendVector(bv) })
+			got = r
+		case "Slice":
+			i := rapid.IntRange(0, n).Draw(t, "i")
+			j := rapid.IntRange(i, n).Draw(t, "j")
+			want = append([]Scalar{}, am[i:j]...)
+			var r Vector
+			perr = call(func() { r = av.Slice(i, j) })
+			got = r
+		case "Swap":
+			if n == 0 {
+				c.End()
+				return
+			}
+			i := rapid.IntRange(0, n-1).Draw(t, "i")
+			j := rapid.IntRange(0, n-1).Draw(t, "j")
+			want = append([]Scalar{}, am...)
+			want[i], want[j] = want[j], want[i]
+			perr = call(func() { av.Swap(i, j) })
+		case "Permute":
+			pi := rapid.Permutation(seqInts(n)).Draw(t, "pi")
+			// the semantics fixed by the dense implementation: for increasing i, positions i and pi[i] are
+			// exchanged if pi[i] > i (a sequence of interchanges, as pivot vectors are applied)
+			want = append([]Scalar{}, am...)
+			for i := 0; i < n; i++ {
+				if pi[i] > i {
+					want[i], want[pi[i]] = want[pi[i]], want[i]
+				}
+			}
+			var perr2 error
+			perr = call(func() { perr2 = av.Permute(pi) })
+			if perr == "" && perr2 != nil {
+				t.Fatalf("%s: Permute(%v) returned %v", c.Desc(), pi, perr2)
+			}
+		}
+		if perr != "" {
+			t.Fatalf("%s: panicked: %s", c.Desc(), perr)
+		}
+		if got == nil {
+			t.Fatalf("%s: returned nil", c.Desc())
+		}
+		g, bad := model.ObsVector(got)
+		if bad != "" {
+			t.Fatalf("%s: %s", c.Desc(), bad)
+		}
+		ws := model.ObsScalars(want)
+		if valuesOnly {
+			if g.N != ws.N {
+				t.Fatalf("%s: dimension %d, expected %d", c.Desc(), g.N, ws.N)
+			}
+			for i := range g.E {
+				if g.E[i].Val != ws.E[i].Val {
+					t.Fatalf("%s: element %d is %v, the sorted model has %v\n got  %v\n want %v", c.Desc(), i, g.E[i].Val, ws.E[i].Val, g, ws)
+				}
+			}
+		} else if d := g.Diff(ws, 0); d != "" {
+			t.Fatalf("%s: result differs from the slice model: %s\n got  %v\n want %v", c.Desc(), d, g, ws)
+		}
+		c.End()
+	})
+}
+
+func seqInts(n int) []int {
+	r := make([]int, n)
+	for i := range r {
+		r[i] = i
+	}
+	return r
 }
